@@ -117,8 +117,9 @@ type c05Dest struct {
 }
 
 type c05Plan struct {
-	Net   simnet.Config `json:"net"`
-	Dests []*c05Dest    `json:"destinations"`
+	Net     simnet.Config `json:"net"`
+	Dests   []*c05Dest    `json:"destinations"`
+	Flushes []int         `json:"manual_flush_gaps_ms"` // Destination.Flush() calls made while the clients hand lines over
 }
 
 func genC05Dest(x *Exec, g *simrt.Choices, k int, pickle bool, nc simnet.Config) *c05Dest {
@@ -204,6 +205,11 @@ func scenC05(x *Exec) {
 	for k := 0; k < nd; k++ {
 		p.Dests = append(p.Dests, genC05Dest(x, g, k, pickle, p.Net))
 	}
+	if g.Bool(0.4) {
+		for i, n := 0, 1+g.Intn(12); i < n; i++ {
+			p.Flushes = append(p.Flushes, []int{0, 0, 1, 3, 10, 100}[g.Pick(6)])
+		}
+	}
 	x.Out.Sample = p
 	cfg.Horizon = 4 * time.Hour
 	cfg.MaxSteps = 3000000
@@ -264,7 +270,26 @@ func scenC05(x *Exec) {
 				cond.Broadcast()
 			})
 		}
-		cond.Wait(func() bool { return fin == nd }, time.Time{})
+		// flush timing is part of the property: manual flushes land between, and in the middle of, the hand-offs
+		flushed := len(p.Flushes) == 0
+		if !flushed {
+			s.Spawn("flusher", "client", "harness", func() {
+				for i, gap := range p.Flushes {
+					if fin == nd {
+						break
+					}
+					if gap > 0 {
+						simrt.Sleep(time.Duration(gap) * time.Millisecond)
+					}
+					dests[i%nd].Flush()
+					simrt.Yield("flushed")
+					s.Probe("c05.manual_flush")
+				}
+				flushed = true
+				cond.Broadcast()
+			})
+		}
+		cond.Wait(func() bool { return fin == nd && flushed }, time.Time{})
 		allOK := true
 		recvTotal := 0
 		for k, pd := range p.Dests {
